@@ -156,6 +156,31 @@ __CPROVER_ensures(0 <= __CPROVER_return_value && __CPROVER_return_value < HTTP_R
 	 VF_INSIDE((rd)->abs_path, (rd)->abs_path_size, (hdr), (rd)->line_size) &&	\
 	 VF_INSIDE((rd)->query, (rd)->query_size, (hdr), (rd)->line_size))
 
+/* -DVF_HTTP_GHOST_K: unbounded single-conjunct content variant (C20): the method span starts
+ * the line, is followed by SP and contains no SP; the target is non-empty, ends at an SP and
+ * contains no SP; the line ends at the first CRLF (all at the ghost index vf_k) */
+#ifdef VF_HTTP_GHOST_K
+extern size_t vf_k;
+#define VF_REQ_LINE_K_ENSURES							\
+__CPROVER_ensures(__CPROVER_return_value == 0 ==> (req_data->method == http_hdr &&	\
+    req_data->method_size < req_data->line_size &&				\
+    http_hdr[req_data->method_size] == ' '))					\
+__CPROVER_ensures((__CPROVER_return_value == 0 && vf_k < req_data->method_size) ==> http_hdr[vf_k] != ' ')	\
+/* the target is non-empty, ends at an SP and contains no SP */			\
+__CPROVER_ensures(__CPROVER_return_value == 0 ==> (req_data->uri_size >= 1 &&		\
+    req_data->uri[req_data->uri_size] == ' '))					\
+__CPROVER_ensures((__CPROVER_return_value == 0 &&					\
+    vf_k >= VF_OFF(req_data->uri) - VF_OFF(http_hdr) &&				\
+    vf_k - (VF_OFF(req_data->uri) - VF_OFF(http_hdr)) < req_data->uri_size) ==> http_hdr[vf_k] != ' ')	\
+/* the line ends at the FIRST CRLF (or at the end of the block) */		\
+__CPROVER_ensures(__CPROVER_return_value == 0 ==> (req_data->line_size == hdr_size ||	\
+    (req_data->line_size + 2 <= hdr_size && http_hdr[req_data->line_size] == '\r' &&	\
+     http_hdr[req_data->line_size + 1] == '\n')))					\
+__CPROVER_ensures((__CPROVER_return_value == 0 && vf_k + 1 < req_data->line_size) ==>	\
+    !(http_hdr[vf_k] == '\r' && http_hdr[vf_k + 1] == '\n'))
+#else
+#define VF_REQ_LINE_K_ENSURES
+#endif
 int http_parse_req_line(const uint8_t *http_hdr, size_t hdr_size, http_req_line_data_p req_data)
 __CPROVER_requires(VF_FRESH_IN(http_hdr, hdr_size))
 __CPROVER_requires(__CPROVER_is_fresh(req_data, sizeof(*req_data)))
@@ -167,6 +192,7 @@ __CPROVER_ensures(hdr_size <= 10 ==> __CPROVER_return_value == EINVAL)
 __CPROVER_ensures(__CPROVER_return_value == 0 ==> req_data->line_size <= hdr_size)
 __CPROVER_ensures(__CPROVER_return_value == 0 ==> VF_REQ_SPANS_INSIDE(req_data, http_hdr))
 __CPROVER_ensures(__CPROVER_return_value == 0 ==> req_data->method_code < HTTP_REQ_METHOD__COUNT__)
+VF_REQ_LINE_K_ENSURES
 ;
 
 int http_parse_resp_line(const uint8_t *http_hdr, size_t hdr_size, http_resp_line_data_p resp_data)
@@ -191,9 +217,33 @@ __CPROVER_ensures(__CPROVER_return_value == 0 ==> resp_data->status_code <= 999)
 #define VF_IN_http_hdr_val_get_ex(p, n)	VF_FRESH_IN(p, n)
 #define VF_OO_http_hdr_val_get_ex(p)	VF_FRESH_OUT_OPT(p)
 #endif
+/* -DVF_HTTP_GHOST_K (enforced only): unbounded content variant (C20) - a found field starts a
+ * line (CRLF directly before it), its name equals val_name ignoring case (at ghost index vf_j,
+ * over the compared length recorded by the strncasecmp stub: val_name_size, or up to a NUL the
+ * caller put into val_name), ':' follows the name, the value lies after that ':' */
+#if defined(VF_HTTP_GHOST_K) && !defined(VF_R_http_hdr_val_get_ex)
+#define VF_LC(c)	(((c) >= 'A' && (c) <= 'Z') ? (uint8_t)((c) | 32) : (uint8_t)(c))
+#define VF_HDR_GET_K_CLAUSES								\
+__CPROVER_requires(val_name_size >= 1 && val_ret != NULL)				\
+__CPROVER_assigns(vf_cmp_off, vf_cmp_len)						\
+__CPROVER_ensures(__CPROVER_return_value == 0 ==> (vf_cmp_off >= 2 && vf_cmp_off >= offset + 2 &&	\
+    vf_cmp_off + val_name_size < hdr_size &&						\
+    http_hdr[vf_cmp_off - 2] == '\r' && http_hdr[vf_cmp_off - 1] == '\n' &&		\
+    http_hdr[vf_cmp_off + val_name_size] == ':'))					\
+__CPROVER_ensures(__CPROVER_return_value == 0 ==>					\
+    (vf_cmp_len == val_name_size || (vf_cmp_len < val_name_size && val_name[vf_cmp_len] == 0)))	\
+__CPROVER_ensures((__CPROVER_return_value == 0 && vf_j < vf_cmp_len) ==>		\
+    VF_LC(http_hdr[vf_cmp_off + vf_j]) == VF_LC(val_name[vf_j]))			\
+__CPROVER_ensures(__CPROVER_return_value == 0 ==>					\
+    VF_OFF(*val_ret) - VF_OFF(http_hdr) > vf_cmp_off + val_name_size)
+extern size_t vf_cmp_off, vf_cmp_len, vf_j;
+#else
+#define VF_HDR_GET_K_CLAUSES
+#endif
 int http_hdr_val_get_ex(const uint8_t *http_hdr, size_t hdr_size,
     const uint8_t *val_name, size_t val_name_size, size_t offset,
     const uint8_t **val_ret, size_t *val_ret_size, size_t *offset_next)
+VF_HDR_GET_K_CLAUSES
 __CPROVER_requires(VF_IN_http_hdr_val_get_ex(http_hdr, hdr_size))
 __CPROVER_requires(VF_IN_http_hdr_val_get_ex(val_name, val_name_size))
 __CPROVER_requires(VF_OO_http_hdr_val_get_ex(val_ret))
@@ -287,7 +337,6 @@ __CPROVER_ensures((phdr_size != NULL && hdr_size != 0 && vals_count != 0) ==> *p
 /* -DVF_HTTP_GHOST_K: unbounded single-conjunct content variant (C20, thorough tier): for the
  * harness-chosen ghost index vf_k, an accepted block satisfies the byte rules 1 and 2 at vf_k */
 #ifdef VF_HTTP_GHOST_K
-extern size_t vf_k;
 /* the byte rules 1 and 2 of the smuggling table (specs/http_spec.h vs_byte_rule), stateless */
 #define VF_SEC_BYTE_OK(b, n, k)							\
 	((b)[k] <= 126 &&								\
